@@ -198,9 +198,11 @@ impl<'a, F: IVP> SolOut for DefaultSolOut<'a, F> {
                         let mut fa = g_prev;
                         let mut fb = g_curr;
 
-                        let (event_t, event_y) = if fa.abs() <= XTOL {
+                        // (exact zeros only, as brentq does: XTOL is a tolerance on the abscissa,
+                        // not on the value of the event function)
+                        let (event_t, event_y) = if fa == 0.0 {
                             (a, self.yold.clone())
-                        } else if fb.abs() <= XTOL {
+                        } else if fb == 0.0 {
                             (b, y.to_vec())
                         } else {
                             // Brent's method
